@@ -171,17 +171,40 @@ def explore_shape(shape, tier="quick", seed=0, budget_s=20, validate=0):
 
 
 def replay(rec):
+    if rec.get("engine") == "crosshair":
+        from props.c10 import replay as r10
+
+        return r10(rec)
     return runner.replay_record(sys.modules[__name__], rec)
+
+
+def e1_part(tier, seed):
+    """value level: CrossHair on method sets whose bodies re-check their own documented condition (positional and
+    keyword-only value-dependent parameters; entry directly, through recurse and through call_next)"""
+    import json
+    import os
+
+    from lib import xhrun
+    from xh import gen
+
+    hs = [(f"c01_{v}", gen.entry_guard_module(v), dict(family="entry guards", variant=v))
+          for v in ("kwonly_literal", "kwonly_dependent", "positional_mix")]
+    code = xhrun.main(PID, tier, seed, hs, bounds=dict(values="int unbounded, str len <= 2"), rule="see symx part", mod=None)
+    with open(os.path.join(runner.EVID, f"{PID}.json")) as fh:
+        cov = json.load(fh)["coverage"]
+    return code, {k: cov[k] for k in ("harness_modules", "check_conditions", "confirmed_over_all_paths", "inconclusive",
+                                       "counterexamples_replayed", "reachability_witnessed", "samples")}
 
 
 def main(tier, seed):
     t0 = time.time()
     runner.assert_real_code()
+    code_e1, cov_e1 = e1_part(tier, seed)
     shapes, total, sampled = gen_shapes(tier, seed)
     kw = dict(tier=tier, seed=seed, budget_s=10 if tier == "quick" else 60, validate=1)
     results = runner.pmap("props.c01", "explore_shape", shapes, kw, chunksize=2)
-    return runner.finish(
-        PID, tier, seed, t0, results,
+    code = runner.finish(
+        PID, tier, seed, t0, results, extra=dict(value_level_part_crosshair=cov_e1),
         bounds=dict(classes=3, methods="2-3", positionals="1-2 (second may be optional)", keyword_only="optional/required `k` on a quarter of the methods",
                     annotations="Ki, object, Union, Intersection, Exactly, StrictSubclass, HasMethod, nested depth 2",
                     bodies="return | call_next(same) | call_next(other args) | recurse(other args) (re-entry depth <= 2)",
@@ -191,6 +214,8 @@ def main(tier, seed):
         stubs=["SymMeta classes", "SymInt priorities"],
         dont_care=["errors (which error, whether an error): C02's subject; this is a pure safety statement"],
         assumptions=["parameters left to their defaults are not type-checked (the default object is the method's own)",
-                     "value-dependent annotations are covered by the CrossHair harnesses (C10/C11), type[...] by C14"],
+                     "value-dependent annotations: three CrossHair harness modules run as part of this check (coverage.value_level_part_crosshair) "
+                     "and the C10/C11 harnesses; type[...] by C14"],
         shapes_total=total, shapes_sampled=sampled, mod=sys.modules[__name__],
     )
+    return max(code, code_e1) if 1 not in (code, code_e1) else 1
